@@ -60,6 +60,15 @@ func zzvC04Scenarios() []zzvC04Scn {
 	A := func(n string, v uint64) zzvOp4 { return zzvOp4{"add", n, v} }
 	big := zzvBig('B')
 	big2 := zzvBig('C')
+	// a short name and two 4000-byte names that share one bucket
+	kk := zzvCollideN(1)
+	var bigK []string
+	for i := 0; len(bigK) < 2; i++ {
+		n := fmt.Sprintf("K%05d/%s", i, strings.Repeat("k", 4000))[:4000]
+		if ref.FNV(n) == ref.FNV(kk[0]) {
+			bigK = append(bigK, n)
+		}
+	}
 	return []zzvC04Scn{
 		{name: "P1-create-race-same-name", procs: [][]zzvOp4{{open, A("a", 1)}, {open, A("a", 2)}}},
 		{name: "P2-same-name-open", preOpen: true, procs: [][]zzvOp4{{A("a", 1)}, {A("a", 2)}}},
@@ -70,6 +79,10 @@ func zzvC04Scenarios() []zzvC04Scn {
 		{name: "P7-extend-race-two-bignames", preOpen: true, fill: 3, procs: [][]zzvOp4{{A(big, 1)}, {A(big2, 2)}}},
 		{name: "P8-extend-vs-small", preOpen: true, fill: 3, procs: [][]zzvOp4{{A(big, 1)}, {A("a", 2), A("b", 4)}}},
 		{name: "P12-pagetail-record-vs-extend", preOpen: true, fill: 3, tailPad: true, procs: [][]zzvOp4{{A("tail-name-16byte", 1)}, {A(big, 2)}}},
+		// A's colliding chain grows twice beyond A's mapping while A is between reserving and linking its
+		// record: once into page 2 (B's first big record), and, after A's retry, into page 3
+		{name: "P13-chain-head-beyond-mapping-twice", preOpen: true, fill: 3, thorough: true,
+			procs: [][]zzvOp4{{A(kk[0], 1)}, {A(bigK[0], 2), A(zzvBig('D')[:4000], 4), A(zzvBig('E')[:4000], 8), A(zzvBig('F')[:4000], 16), A(bigK[1], 32)}}},
 		{name: "P9-three-procs-same-name", preOpen: true, procs: [][]zzvOp4{{A("a", 1)}, {A("a", 2)}, {A("a", 4)}}, thorough: true},
 		{name: "P10-three-procs-colliding", preOpen: true, procs: [][]zzvOp4{{A(k1, 1)}, {A(k2, 2)}, {A(k1, 4)}}, thorough: true},
 		{name: "P11-create-race-three", procs: [][]zzvOp4{{open, A("a", 1)}, {open, A("b", 2)}, {open, A("a", 4)}}, thorough: true},
@@ -306,6 +319,7 @@ func zzvC04Scenario(base string, scn *zzvC04Scn) *sched.Scenario {
 				}
 				if pend != 0 && r.w.procs[p].current.Load() != nil {
 					r.deferred++
+					v = append(v, fmt.Sprintf("survivor %d returned from Add with %d left in memory although its counter file is open: another process made its record creation fail", p, pend))
 				}
 			}
 			var tot uint64
@@ -338,6 +352,8 @@ func zzvSigC04(f sched.Found, msg string) string {
 				}
 			}
 		}
+	case strings.Contains(msg, "left in memory although its counter file is open"):
+		base = "survivor-left-unpersisted"
 	case strings.HasPrefix(msg, "allocation limit decreased"):
 		base = "limit-decreased"
 	case strings.HasPrefix(msg, "counter "):
